@@ -10,6 +10,7 @@ import StamModel.Driver.Ql
 import StamModel.Driver.Wj
 import StamModel.Driver.Wd
 import StamModel.Driver.Cr
+import StamModel.Driver.Js
 import StamModel.Driver.Cc
 import StamModel.Driver.Tid
 import StamModel.Driver.Hs
@@ -35,6 +36,7 @@ def step (line : String) : String :=
   | "wj" :: args => wj args
   | "wd" :: args => wd args
   | "cr" :: args => cr args
+  | "js" :: args => js args
   | "cc" :: args => cc args
   | "tid" :: args => tid args
   | "hs" :: args => hs args
